@@ -22,6 +22,8 @@ func init() {
 			{ID: "C17.R3", Floor: 4, Run: c17r3, Text: "JSON: MarshalJSON builds the array from (id, gen) in this order; UnmarshalJSON stores arr[0] into id and arr[1] into gen on every path that returns a nil error, and writes the entity in no other way"},
 			{ID: "C17.R5", Floor: 2, Run: c17r5, Text: "the dump is a copy: the slices DumpEntities puts into the EntityDump derive only from make/append-to-fresh, never from the pool's own storage"},
 			{ID: "C17.R6", Floor: 3, Run: c17r6, Text: "capacity from the same length: every make([]T, n, c) of handle/index storage with a non-constant length has c = n + e, c = n, or c = capacity(n, ·) computed from the same n (structural equality): the pool and the index are sized from the full id count, in step"},
+			{ID: "C17.R7", Floor: 4, Run: loadMustWrite, Text: "load on every path: every path of LoadEntities to a normal return writes the pool's run-state fields, World.entities and World.targetEntities"},
+			{ID: "C17.R8", Floor: 1, Run: marshalAllPaths, Text: "every return of Entity.MarshalJSON carries bytes derived from both id and generation"},
 			{ID: "C17.R4", Floor: 2, Run: c17r4, Text: "no alias of the dump: the slices LoadEntities stores into the pool and the index derive only from make/append-to-fresh, never from a field of the parameter"},
 		},
 	})
@@ -42,6 +44,8 @@ func init() {
 			{ID: "C02.R7", Floor: 3, Run: c05r7, Text: "handle identity (= C05.R7): handles are never compared by id alone"},
 			{ID: "C02.R9", Floor: 2, Run: c17r5, Text: "the dump is a copy (= C17.R5): a dump that shares the pool's storage is rewritten by later removals, and loading it re-issues live handles"},
 			{ID: "C02.R10", Floor: 3, Run: c17r6, Text: "index growth in step with the pool (= C17.R6): every make([]T, n, c) of handle/index storage with a non-constant length has c = n + e, c = n, or c = capacity(n, ·) computed from the same n (structural equality): the pool and the index are sized from the full id count, in step"},
+			{ID: "C02.R11", Floor: 1, Run: c02r11, Text: "no bulk clear of handle storage: clear() is never applied to entityPool.entities or World.entities (slot 0 holds the sentinel that makes the zero entity dead); fixture-backed"},
+			{ID: "C02.R12", Floor: 15, Run: c10r1, Text: "no creation before validation (= C10.R1): a creation call that panics has created nothing, so alive = creations − removals also for callers that recover"},
 		},
 	})
 }
